@@ -80,7 +80,8 @@ def _run_one(args):
             return out
         opts = dict(per_path_timeout=30.0, total_timeout=150.0, vc_timeout=10.0)
         opts.update(ob.opts)
-        has_known = any(k.get("status", "known") == "known" and k.get("obligation") == oid for k in load_known())
+        has_known = any(k.get("status", "known") == "known" and k.get("property") == getattr(mod, "PROPERTY", None)
+                        and k.get("obligation") in (oid, "*") for k in load_known())
         # with a listed known finding keep exploring, so that a different violation of the same obligation is still reported
         res = E.explore(ob.harness, oid, stop_on_violation=not (ob.collect_all or has_known), **opts)
         if res.status == "violation" and ob.alternatives:
@@ -175,7 +176,7 @@ def run_property(modname: str, tier: str, seed: int, jobs: int = 16, only: Optio
             cexs = r.get("counterexamples") or [r.get("counterexample") or {}]
             for cex in cexs:
                 k = next((k for k in known if k.get("status", "known") == "known"
-                          and k["obligation"] == r["id"]
+                          and k["obligation"] in (r["id"], "*")
                           and (k.get("label") in (None, cex.get("label")))), None)
                 if k is not None:
                     if not any(kk is k for kk, _ in known_hits):
